@@ -27,6 +27,17 @@ def make_data(rec):
             same = np.abs(q[0] - q[1]) < 512
             q[1] = np.where(same, np.where(q[0] > 0, q[0] - 512, q[0] + 512), q[1])
         return q.astype(np.float64) / 256.0
+    if rec["regime"] == "const":
+        # some (or all) coefficients constant at values that are not exactly representable: floored log energies do
+        # this in practice. Only used where the oracle does not need a healthy variance (C17: reload == original).
+        vals = np.asarray(rec.get("values", [0.3] * d), dtype=np.float64)[:d]
+        if len(vals) < d:
+            vals = np.concatenate([vals, np.full(d - len(vals), -11.512925464970229)])
+        x = np.repeat(vals[None, :], n, axis=0)
+        free = [j for j in rec.get("free_cols", []) if j < d]
+        if free:
+            x[:, free] = g.standard_normal((n, len(free))) * 2.0 - 1.0
+        return x
     sig = float(rec.get("sigma", 1.0))
     mu = np.asarray(rec.get("means", [0.0] * d), dtype=np.float64)[:d]
     if len(mu) < d:
